@@ -27,6 +27,7 @@ func NewBufferedCollector(ctx context.Context, size int, coll Collector) Collect
 		for {
 			select {
 			case <-ctx.Done():
+				vpoint("bd.cancel")
 				if len(c.pipe) != 0 {
 					for in := range c.pipe {
 						c.catcher.Add(c.Collector.Add(in))
@@ -35,6 +36,7 @@ func NewBufferedCollector(ctx context.Context, size int, coll Collector) Collect
 
 				return
 			case in := <-c.pipe:
+				vpoint("bd.recv")
 				c.catcher.Add(c.Collector.Add(in))
 			}
 		}
@@ -43,6 +45,7 @@ func NewBufferedCollector(ctx context.Context, size int, coll Collector) Collect
 }
 
 func (c *bufferedCollector) Add(in interface{}) error {
+	vpoint("bp.add")
 	select {
 	case <-c.ctx.Done():
 		return c.ctx.Err()
